@@ -261,3 +261,20 @@ func AccessWrite(key any, what string) {
 		s.access(uintptr(s.objID(key))|1<<62, key, true, what)
 	}
 }
+
+// AtomicFence is placed by the rewriter before and after every statement that uses sync/atomic: a scheduling point,
+// and an acquire+release on one global object. All atomic operations of an execution are thereby totally ordered
+// for the race detector - more ordering than the memory model gives (a race between plain accesses that happens to
+// be separated by unrelated atomic operations goes unreported), but never a false report for data published through
+// an atomic flag.
+func AtomicFence() {
+	s := sched()
+	if s == nil {
+		return
+	}
+	s.yield(&pendingOp{kind: opYield, obj: &s.atomicVC, enabled: always, where: where()})
+	if s.races != nil {
+		s.running.acquire(&s.atomicVC)
+		s.running.release(&s.atomicVC)
+	}
+}
